@@ -96,6 +96,7 @@ type Exec struct {
 	lockSnap    *State
 	allocKinds  map[string]bool
 	axiomText   map[string]string
+	knownLen    map[string]int
 	effRecvType types.Type
 	effSubst    map[*types.TypeParam]types.Type
 	relSnap     map[string]*State
@@ -120,7 +121,7 @@ type methodVal struct {
 
 func NewExec(p *Program, smtStr bool) *Exec {
 	return &Exec{prog: p, vc: NewVC(smtStr), obIndex: map[string]*Obligation{}, init0: map[string]Term{}, noteSet: map[string]bool{},
-		dropped: map[string]bool{}, externs: map[string]bool{}, inlined: map[string]bool{}, havocs: map[string]bool{}, maxInl: 6, safety: true, globalVal: map[string]Term{}, allocKinds: map[string]bool{}, axiomText: map[string]string{}, relSnap: map[string]*State{}, acqSnap: map[string]*State{}, methodVals: map[string]methodVal{}, litVals: map[string]*ast.FuncLit{}}
+		dropped: map[string]bool{}, externs: map[string]bool{}, inlined: map[string]bool{}, havocs: map[string]bool{}, maxInl: 6, safety: true, globalVal: map[string]Term{}, allocKinds: map[string]bool{}, axiomText: map[string]string{}, knownLen: map[string]int{}, relSnap: map[string]*State{}, acqSnap: map[string]*State{}, methodVals: map[string]methodVal{}, litVals: map[string]*ast.FuncLit{}}
 }
 
 func (e *Exec) note(format string, a ...any) {
@@ -755,6 +756,29 @@ func (e *Exec) rangeStmt(x *ast.RangeStmt, st *State, fr *Frame) Flow {
 			}
 		}
 		e.assign(id, v, e.ctx(s, fr))
+	}
+	if n, ok := e.knownLen[coll.S]; ok && coll.T.K == KSlice && n <= 4 && len(invs) == 0 {
+		// a slice of known small length (a packed variadic argument): unroll
+		var out Flow
+		cur := st
+		var exits []*State
+		for j := 0; j < n && !cur.dead(); j++ {
+			if x.Key != nil {
+				bind(x.Key, cur, Term{fmt.Sprintf("%d", j), tInt})
+			}
+			if x.Value != nil {
+				bind(x.Value, cur, e.seqGet(coll, fmt.Sprintf("%d", j)))
+			}
+			saved := copyNames(fr)
+			f := e.block(x.Body.List, cur, fr)
+			restoreNames(fr, saved)
+			out.rets = append(out.rets, f.rets...)
+			exits = append(exits, f.brk...)
+			cur = e.merge(append([]*State{f.norm}, f.cont...))
+		}
+		exits = append(exits, cur)
+		out.norm = e.merge(exits)
+		return out
 	}
 	switch coll.T.K {
 	case KSlice, KInt:
